@@ -457,6 +457,21 @@ impl Rewriter {
       let fn_name = original_name.fn_name;
       let replacement_class =
         generics_replacement_map.get(&generic_class_name).unwrap().as_id().unwrap();
+      // The replacement can itself be an instantiated generic class: its members are
+      // specialized from the generic class, with the class type arguments first.
+      let (class_name, class_type_arguments) =
+        self.symbol_table.split_type_name_suffix(*replacement_class);
+      let generic_class_fn_name = mir::FunctionName { type_name: class_name, fn_name };
+      if !class_type_arguments.is_empty()
+        && self.original_functions.contains_key(&generic_class_fn_name)
+      {
+        return self.rewrite_non_generic_fn_name(
+          heap,
+          generic_class_fn_name,
+          function_type,
+          class_type_arguments.into_iter().chain(function_type_arguments).collect(),
+        );
+      }
       let rewritten_fn_name = mir::FunctionName { type_name: *replacement_class, fn_name };
       self.rewrite_non_generic_fn_name(
         heap,
